@@ -14,7 +14,8 @@ MODEL_NEEDS_IMPL = True
 # Regressions of a committed fix match neither and are VIOLATIONs.
 VARIANTS = ["repaired", "head"]
 RULE = ("reply: 1-3 sequential exchanges on one real radiusConn over loopback UDP (identifier and request authenticator "
-        "forced, identifier often re-used between rounds); per round 1-5 datagrams from the classes genuine / genuine+MA / "
+        "forced, identifier often re-used between rounds; 30 % of non-final rounds are HELD, i.e. overlap with the next "
+        "exchange, mostly on the same identifier); per round 1-5 datagrams from the classes genuine / genuine+MA / "
         "RA-ok-MA-bad / RA-bad-MA-ok / forged / wrong-secret / bit-flipped attribute, authenticator or code / other "
         "identifier / stale (genuine for the previous request) / replayed / short / bad length / trailing padding / "
         "shorter declared length / malformed attribute / MA of wrong length / reflected request, in random order. "
@@ -186,7 +187,9 @@ def gen_reply(rng):
                 genuine_here = d
             classes.append(cls)
             dgs.append(d)
-        toks += [str(ident), str(code), hx(auth), hx(attrs), str(len(dgs))] + [hx(d) if d else "00" for d in dgs]
+        # a held round overlaps with the next one: both exchanges are outstanding when the datagrams arrive
+        hold = "h" if (r + 1 < rounds and rng.random() < 0.3) else ""
+        toks += [hold + str(ident), str(code), hx(auth), hx(attrs), str(len(dgs))] + [hx(d) if d else "00" for d in dgs]
         prev = (ident, reqauth, genuine_here or mk_reply(okcode, ident, reqauth, attr(18, b"old"), secret))
     return " ".join(toks)
 
@@ -310,7 +313,7 @@ def gen_auth(rng):
 
 def gen_cases(rng, tier, budget):
     q = tier == "quick"
-    nr, nc, na = (260, 500, 60) if q else (4000, 8000, 600)
+    nr, nc, na = (300, 900, 80) if q else (4000, 10000, 800)
     if budget:
         nr, nc, na = budget, budget, max(10, budget // 5)
     cases = []
@@ -416,6 +419,7 @@ def distribution(cases, impl):
             continue
         if k == "reply":
             d["reply_cases"] += 1
+            d["reply_overlapping_rounds"] = d.get("reply_overlapping_rounds", 0) + len(re.findall(r" h\d+ ", c))
             for s in _segs(o):
                 d["reply_rounds"] += 1
                 if _tok(s, "got") == "timeout":
